@@ -118,6 +118,25 @@ func apply(t *rapid.T, src, op string) string {
 		if len(cand) == 0 {
 			return src
 		}
+		// clauses of type switches (the nearest enclosing `switch … .(type) {` with a smaller indent)
+		// are drawn half of the time when there are any: duplicates of unnamed composite types are
+		// detected by other code than duplicates of constants
+		var inTypeSwitch []int
+		for _, i := range cand {
+			ind := len(lines[i]) - len(strings.TrimLeft(lines[i], " \t"))
+			for j := i - 1; j >= 0; j-- {
+				tl := strings.TrimSpace(lines[j])
+				if strings.HasPrefix(tl, "switch ") && len(lines[j])-len(strings.TrimLeft(lines[j], " \t")) <= ind {
+					if strings.Contains(tl, ".(type)") {
+						inTypeSwitch = append(inTypeSwitch, i)
+					}
+					break
+				}
+			}
+		}
+		if len(inTypeSwitch) > 0 && pick(t, 2, "typeswitch") == 0 {
+			cand = inTypeSwitch
+		}
 		i := cand[pick(t, len(cand), "line")]
 		tl := strings.TrimSpace(lines[i])
 		list := strings.TrimSuffix(strings.TrimPrefix(tl, "case "), ":")
